@@ -63,6 +63,13 @@ def decOp (j : Json) : Except String Op := do
   | "list" => pure (.list (← J.getHex j "u") (← decList decSchema j "schemas"))
   | "unlist" => pure (.unlist (← J.getHex j "u"))
   | "handle" => pure (.handle (← J.getHex j "u"))
+  | "burst" =>
+      let st ← match ← optPair j "st" with
+        | none => pure none
+        | some (c, r) => pure (some (⟨c, r⟩ : IState))
+      pure (.burst (← J.getHex j "u") (← J.getHex j "i") (← J.getHex j "fc") st)
+  | "faults" => pure (.faults (← J.getHexList j "names"))
+  | "apiDelete" => pure (.apiDelete (← J.getHex j "name"))
   | o => throw s!"unknown op {o}"
 
 def decCond (j : Json) : Except String (Nat × Cond) := do
@@ -95,7 +102,8 @@ def decState (j : Json) : Except String State := do
     conds := ← decList decCond j "conds",
     fcs := ← decList decFC j "fcs",
     listed := ← decList (fun c => do pure (← J.getHex c "u", ← decList decSchema c "schemas")) j "listed",
-    locks := ← J.getHexList j "locks" }
+    locks := ← J.getHexList j "locks",
+    failing := ← J.getHexList j "failing" }
 
 /-! ### encoding -/
 
@@ -136,7 +144,8 @@ def encState (s : State) : Json :=
     ("conds", encArr encCond s.conds),
     ("fcs", encArr encFC s.fcs),
     ("listed", encArr (fun r : Ups × List Schema => J.obj [("u", J.hex r.1), ("schemas", encArr encSchema r.2)]) s.listed),
-    ("locks", J.hexList s.locks)]
+    ("locks", J.hexList s.locks),
+    ("failing", J.hexList s.failing)]
 
 def encOut : Out → Json
   | .unit => J.obj [("k", Json.str "unit")]
